@@ -11,6 +11,7 @@
   `|S| ≤ T ∧ |c| ≤ 3uT ∧ |s − c − S| ≤ E ∧ E ≤ T/4`.
 -/
 import StatsCI.Lemmas.Kahan
+import StatsCI.Lemmas.KahanProg
 
 namespace StatsCI.C08
 open StatsCI KahanLemmas
@@ -92,6 +93,99 @@ theorem sequential (hu : 0 ≤ u) (hu' : u ≤ 1 / 64) (hfl : ∀ x, |fl x - x| 
   kahan_sequential hu hu' hfl xs hn
 
 example : (([1, 2, 3] : List ℝ).length : ℝ) * (1 / 128) ≤ 1 := by norm_num
+
+/-! ### 4. Arbitrary accumulation histories (merge trees)
+
+`Tb u p` (magnitude budget) and `Eb u p` (error allowance) are defined by recursion over the
+history in `StatsCI.KahanLemmas.budget`; `Ok u p` is the node-wise side condition `Eb ≤ Tb/4`
+(at every node, and after every element of an `extend`). The recursion is restated here as
+`budget_recursion`. Compared with the sketch in DESIGN.md Appendix A.2 the magnitude of the right
+operand is bounded through the *exact* `Σ|data r|` instead of `Tb r`
+(`|s_r| + |c_r| ≤ Σ|data r| + Eb r + 6u·Tb r`), which keeps `Tb ≤ 5/4·Σ|x|` at every depth. -/
+
+/-- the recursion defining the budgets -/
+theorem budget_recursion (u : ℝ) :
+    Tb u .empty = 0 ∧ Eb u .empty = 0 ∧
+    (∀ p x, Tb u (.append p x) = Tb u p + |x|) ∧
+    (∀ p x, Eb u (.append p x) = Eb u p + 2 * u * |x| + 9 * u ^ 2 * Tb u (.append p x)) ∧
+    (∀ p, Tb u (.extend p []) = Tb u p ∧ Eb u (.extend p []) = Eb u p) ∧
+    (∀ p x xs, Tb u (.extend p (x :: xs)) = Tb u (.extend (.append p x) xs) ∧
+               Eb u (.extend p (x :: xs)) = Eb u (.extend (.append p x) xs)) ∧
+    (∀ l r, Tb u (.merge l r) = Tb u l + ((r.data.map abs).sum + Eb u r + 6 * u * Tb u r)) ∧
+    (∀ l r, Eb u (.merge l r) = Eb u l + Eb u r + 6 * u * Tb u r
+        + 2 * u * ((r.data.map abs).sum + Eb u r + 6 * u * Tb u r)
+        + 18 * u ^ 2 * Tb u (.merge l r)) :=
+  ⟨rfl, rfl, fun _ _ => rfl, fun _ _ => rfl, fun _ => ⟨rfl, rfl⟩, fun _ _ _ => ⟨rfl, rfl⟩,
+    fun _ _ => rfl, fun _ _ => rfl⟩
+
+/-- **Program theorem.** For every accumulation history `p` (any tree of `append`, `extend`,
+    `merge`) satisfying the node-wise side condition, the register reached by the model satisfies
+    the invariant `G` with target the exact sum of the delivered data and the budgets
+    `Tb u p`, `Eb u p`; and `value()` is within `Eb + 8u·Tb` of the exact sum. -/
+theorem program (hu : 0 ≤ u) (hu' : u ≤ 1 / 64) (hfl : ∀ x, |fl x - x| ≤ u * |x|)
+    (p : Prog ℝ) (hok : Ok u p) :
+    G u p.data.sum (Tb u p) (Eb u p)
+      ((p.map inj).evalK : Kahan (RR fl)).sum.val ((p.map inj).evalK : Kahan (RR fl)).comp.val ∧
+    |((p.map inj).evalK : Kahan (RR fl)).value.val - p.data.sum| ≤ Eb u p + 8 * u * Tb u p :=
+  ⟨prog_inv hu hu' hfl p hok, prog_value hu hu' hfl p hok⟩
+
+/-- **Closed form of the budgets.** If the relative allowance
+    `(2 + 10·rdepth)·u + 12·steps·u²` is at most `1/8`, the side condition holds at every node,
+    `Σ|x| ≤ Tb ≤ 5/4·Σ|x|` and `Eb ≤ ((2 + 10·rdepth)·u + 12·steps·u²)·Σ|x|`. -/
+theorem program_budgets (hu : 0 ≤ u) (hu' : u ≤ 1 / 64) (p : Prog ℝ)
+    (hs : (2 + 10 * p.rdepth) * u + 12 * p.steps * u ^ 2 ≤ 1 / 8) :
+    Ok u p ∧ (p.data.map abs).sum ≤ Tb u p ∧ Tb u p ≤ 5 / 4 * (p.data.map abs).sum ∧
+    Eb u p ≤ ((2 + 10 * p.rdepth) * u + 12 * p.steps * u ^ 2) * (p.data.map abs).sum := by
+  obtain ⟨h1, h2, h3⟩ := budget_closed hu hu' p hs
+  exact ⟨h1, (budget_facts hu p).2, h2, h3⟩
+
+/-- **Closed form, general smallness hypothesis.** -/
+theorem program_closed' (hu : 0 ≤ u) (hu' : u ≤ 1 / 64) (hfl : ∀ x, |fl x - x| ≤ u * |x|)
+    (p : Prog ℝ) (hs : (2 + 10 * p.rdepth) * u + 12 * p.steps * u ^ 2 ≤ 1 / 8) :
+    |((p.map inj).evalK : Kahan (RR fl)).value.val - p.data.sum| ≤
+      ((12 + 10 * p.rdepth) * u + 12 * p.steps * u ^ 2) * (p.data.map abs).sum :=
+  prog_value_closed hu hu' hfl p hs
+
+/-- **Closed form.** For every accumulation history with `steps·u ≤ 1` and
+    `(rdepth + 1)·u ≤ 1/128` the error of `value()` is at most
+    `((12 + 10·rdepth)·u + 12·steps·u²)·Σ|x|`: the first-order constant depends on how often a
+    register is consumed as the *right* operand of a merge on the way to the root (because `+=`
+    adds `+rhs.compensation`), never on the number of terms. -/
+theorem program_closed (hu : 0 ≤ u) (hfl : ∀ x, |fl x - x| ≤ u * |x|) (p : Prog ℝ)
+    (hn : (p.steps : ℝ) * u ≤ 1) (hd : ((p.rdepth : ℝ) + 1) * u ≤ 1 / 128) :
+    |((p.map inj).evalK : Kahan (RR fl)).value.val - p.data.sum| ≤
+      ((12 + 10 * p.rdepth) * u + 12 * p.steps * u ^ 2) * (p.data.map abs).sum := by
+  have hu' : u ≤ 1 / 64 := by
+    have : 0 ≤ (p.rdepth : ℝ) * u := mul_nonneg (Nat.cast_nonneg _) hu
+    linarith
+  exact prog_value_closed hu hu' hfl p (eps_small hu _ _ hn hd)
+
+/-- **Left fold.** Chunks summed sequentially and merged into one accumulator from the left
+    (`leftFold`): the right-depth is at most 1 whatever the number of chunks, so the constant is
+    absolute: `22u + 12·steps·u²`. -/
+theorem program_leftFold (hu : 0 ≤ u) (hu' : u ≤ 1 / 256) (hfl : ∀ x, |fl x - x| ≤ u * |x|)
+    (chunks : List (List ℝ)) (hn : ((leftFold chunks).steps : ℝ) * u ≤ 1) :
+    |(((leftFold chunks).map inj).evalK : Kahan (RR fl)).value.val - chunks.flatten.sum| ≤
+      (22 * u + 12 * (leftFold chunks).steps * u ^ 2) * (chunks.flatten.map abs).sum := by
+  have hd1 : ((leftFold chunks).rdepth : ℝ) ≤ 1 := by exact_mod_cast rdepth_leftFold_le chunks
+  have hdu : ((leftFold chunks).rdepth : ℝ) * u ≤ 1 * u := mul_le_mul_of_nonneg_right hd1 hu
+  have h := program_closed hu hfl (leftFold chunks) hn (by linarith)
+  rw [data_leftFold] at h
+  have hA : 0 ≤ (chunks.flatten.map abs).sum := sumAbs_nonneg _
+  have q : ((leftFold chunks).rdepth : ℝ) * u * (chunks.flatten.map abs).sum
+      ≤ 1 * u * (chunks.flatten.map abs).sum := mul_le_mul_of_nonneg_right hdu hA
+  linarith
+
+/-- non-vacuity of `program_closed`: a merge of two sequentially built registers, `u = 2⁻¹⁰` -/
+example : let p : Prog ℝ := .merge (.extend .empty [1, -2]) (.append (.extend .empty [3]) 4)
+    ((p.steps : ℝ) * (1 / 1024) ≤ 1) ∧ (((p.rdepth : ℝ) + 1) * (1 / 1024) ≤ 1 / 128) := by
+  norm_num [Prog.steps, Prog.rdepth]
+
+/-- non-vacuity of `program`: that history satisfies the node-wise side condition -/
+example : Ok (1 / 1024)
+    (.merge (.extend .empty [1, -2]) (.append (.extend .empty [3]) 4) : Prog ℝ) := by
+  refine (program_budgets (by norm_num) (by norm_num) _ ?_).1
+  norm_num [Prog.steps, Prog.rdepth]
 
 /-! ### 5. Exact arithmetic -/
 
